@@ -233,6 +233,15 @@ def run(tier, only=None):
         R.case(["mphys", r["k"], r["mode"]], True, sample={"mphys": r["cls"], "mode": r["mode"]} if r["k"] == 1 else None, section="mphys")
         for sig, p in r["bad"]:
             R.violation(sig, {"k": r["k"], "mode": r["mode"], "detail": p, "kind": "mphys"})
+    # flow-condition wiring of the aerodynamic point for every option combination (OASWiring on the real connection table)
+    from .. import builders as B
+    from .. import wiring
+
+    for comp, rot, ground in ((False, False, False), (True, False, False), (False, True, False), (True, True, False), (False, False, True), (False, True, True)):
+        surfs = [dict(name="wing", nx=2, ny=3, sym=True, side="L", shape="swept", visc=True, wave=True, ground=ground), dict(name="tail", nx=2, ny=3, sym=True, side="R" if not ground else "L", shape="flat", span=4.0, chord=0.8, off=(6.0, 0.0, 0.5), visc=True, ground=ground)]
+        m = B.AeroModel(surfs, compressible=comp, rotational=rot, rng=np.random.default_rng(2))
+        m.prob.final_setup()
+        wiring.check(R, m.prob, "aero", "aero:compressible=%s:rotational=%s:ground=%s" % (comp, rot, ground))
     R.assume("CM is normalised by the first listed surface's MAC (documented): the Permute law rescales CM by the MAC ratio; M is compared unscaled", "far-away surface: influence decays >= 5x per decade of distance, < 1e-8 at 1e6 chords", "MPhys groups wired by hand as AeroCouplingGroup/AeroBuilder do, without the MPI distributor")
     return R.finish({"exhaustive": True, "depth": depth})
 
